@@ -72,6 +72,8 @@ var siteSpecs = []siteSpec{
 	{"\"\"", "\"a\"", nil, false},
 	{"uint64(1 << 63)", "int64(-1 << 63)", []string{"uint64(1 << 63)"}, false},
 	{"200", "uint8(200)", []string{"199", "200", "201"}, true},
+	{"[2]string{\n\t\t\"q\",\n\t}", "gv", nil, false},
+	{"gv", "func() int {\n\t\treturn 1\n\t}()", []string{"1"}, false},
 }
 
 func targetSource() string {
@@ -341,6 +343,7 @@ func main() {
 	sizes := types.SizesFor("gc", "amd64")
 	lineSet := map[int]bool{}
 	textSet := map[string]bool{}
+	factsAt := map[[2]int]siteFacts{}
 	for j := 0; j < W; j++ {
 		if len(byJ[j]) != len(siteSpecs) {
 			fmt.Fprintf(os.Stderr, "site index broken: p%d has %d sites\n", j, len(byJ[j]))
@@ -354,6 +357,7 @@ func main() {
 				f.Rest = append(f.Rest, valOf(t, sizes, r))
 			}
 			enc.Encode(f)
+			factsAt[[2]int{s.I, j}] = f
 			lineSet[f.LineX] = true
 			textSet[f.TextX] = true
 			textSet[f.TextY] = true
@@ -416,10 +420,32 @@ func main() {
 		kind := f % 4
 		v := []string{"x", "y"}[rng.Intn(2)]
 		c := g.constFor(kind)
+		if kind == 0 {
+			// a line of this family's own probe column; every third family aims at a capture spanning several lines
+			si := rng.Intn(len(siteSpecs))
+			delta := rng.Intn(3) - 1
+			if f%3 == 0 {
+				// the multi-line x (second to last site) resp. the multi-line y (last site); constant inside the span
+				si = len(siteSpecs) - 2
+				v = "x"
+				if f%6 != 0 {
+					si = len(siteSpecs) - 1
+					v = "y"
+				}
+				delta = rng.Intn(2)
+			}
+			fa := factsAt[[2]int{si, f % W}]
+			ln := fa.LineX
+			if v == "y" {
+				ln = fa.LineY
+			}
+			c = filt.Int(int64(ln + delta))
+		}
 		first := len(cases)
 		for _, tok := range cmpToks {
 			add(fam, "v"+tok, filt.Bin(tok, operand(kind, v), c), -1)
 			add(fam, "c"+tok, filt.Bin(tok, c, operand(kind, v)), -1) // constant on the left
+			add(fam, "w"+tok, filt.Bin(tok, operand(kind, "x"), operand(kind, "y")), -1)
 		}
 		add(fam, "notGEQ", filt.Not(filt.Paren(filt.Bin("GEQ", operand(kind, v), c))), -1)
 		add(fam, "notLEQ", filt.Not(filt.Paren(filt.Bin("LEQ", operand(kind, v), c))), -1)
